@@ -175,6 +175,16 @@ pub fn profile_for(id: &str, rng: &mut Rng) -> Profile {
             p.w_ddl = 8;
             p.max_tables = 2;
         }
+        "C11" => {
+            // DDL and DML with rollbacks, drops, reopen and checkpoints; the page audit runs at every
+            // quiescent CHECK
+            p.guards.push("create_table_inside_session".into()); // L1
+            p.w_ddl = 14;
+            p.w_check = 14;
+            p.w_reopen = *rng.pick(&[0, 4]);
+            p.w_flush = *rng.pick(&[0, 4]);
+            p.constraints = rng.chance(40);
+        }
         "C15" => {
             p.ddl_rich = true;
             p.w_ddl = 25;
